@@ -307,12 +307,21 @@ func TestVerifC16(t *testing.T) {
 		fmt.Printf("RETURNED spawns=%d\n", len(vexec.Spawns))
 		os.Exit(0)
 	}
+	if os.Getenv("VERIF_C16_CRASHCHILD") != "" {
+		// Subprocess: a telemetry child with crash reporting; the crash text arrives on standard input.
+		p := &zzvProc{env: map[string]string{"GO_TELEMETRY_CHILD": "1"}}
+		p.install()
+		vos.ExitHook = nil
+		Start(Config{ReportCrashes: true, TelemetryDir: os.Getenv("VERIF_C16_DIR")})
+		fmt.Printf("RETURNED spawns=%d\n", len(vexec.Spawns))
+		os.Exit(0)
+	}
 	p := vrep.Env()
 	res := vrep.New("C16", p)
 	defer res.Guard()
 	base, _ := vrep.Scratch("c16")
-	res.Rule = "E3: the full decision table marker {unset,1,2} x ReportCrashes x Upload x mode {on,local,off,garbage,absent} x token {absent, 1h, 23h59m, 24h1m, 25h} x local dir {exists, blocked by a file, absent}; rows that spawn are followed by the child entry and a descendant in emulated processes; one row with an unexpected marker runs in a real subprocess; E1: all interleavings of 2 (thorough 3) starters in acquireUploadToken with the token absent / fresh; classes = (marker, spawn decision, mode)"
-	res.Assumptions = []string{"process starts are recorded by the vexec seam; the child entry runs in an emulated process (own environment map, exit as a panic)", "a token aged exactly 24h is not in the table (the statement does not fix that instant)", "rows with ReportCrashes do not run the child entry (the crash monitor child reads the real standard input)"}
+	res.Rule = "E3: the full decision table marker {unset,1,2} x ReportCrashes x Upload x mode {on,local,off,garbage,absent} x token {absent, 1h, 23h59m, 24h1m, 25h} x local dir {exists, blocked by a file, absent}; rows that spawn are followed by the child entry and a descendant in emulated processes; one row with an unexpected marker and six crash-monitor-child rows (mode off/on x standard input empty / unparsable crash / crash without sentinel) run in real subprocesses; E1: all interleavings of 2 (thorough 3) starters in acquireUploadToken with the token absent / fresh; classes = (marker, spawn decision, mode)"
+	res.Assumptions = []string{"process starts are recorded by the vexec seam; the child entry runs in an emulated process (own environment map, exit as a panic)", "a token aged exactly 24h is not in the table (the statement does not fix that instant)", "table rows with ReportCrashes do not run the child entry in the emulated process (the crash monitor child reads the real standard input); six such rows run in real subprocesses instead"}
 	idx := 0
 	for _, marker := range []string{"", "1", "2"} {
 		for _, crashes := range []bool{false, true} {
@@ -351,6 +360,48 @@ func TestVerifC16(t *testing.T) {
 			res.Violate("unexpected-marker-continues", fmt.Sprintf("Start with GO_TELEMETRY_CHILD=3 did not stop the process (err=%v, output %q)", err, out), nil)
 		}
 		res.Class("marker-unexpected")
+	}
+	// The crash-monitor child (marker 1, crash reporting) in a real subprocess, its standard input carrying
+	// nothing, a crash text the monitor cannot parse, or a well-formed one: with mode off nothing is written,
+	// neither in the telemetry directory nor in the directory for temporary files.
+	if p.Mine(1) {
+		exe, _ := os.Executable()
+		inputs := map[string]string{
+			"no-crash":    "",
+			"unparsable":  "sentinel 1234\npanic: PII\n\ngoroutine 1 [running]:\nnot a frame line\n",
+			"no-sentinel": "panic: PII\n\ngoroutine 1 [running]:\nmain.main()\n\t/x/main.go:1 +0x1 sp=0x1 fp=0x2 pc=0x47\n\n",
+		}
+		for in, text := range inputs {
+			for _, mode := range []string{"off 2024-01-01", "on 2024-01-01"} {
+				td, _ := os.MkdirTemp(base, "cc")
+				tmp, _ := os.MkdirTemp(base, "tmp")
+				os.MkdirAll(filepath.Join(td, "local"), 0o777)
+				os.WriteFile(filepath.Join(td, "mode"), []byte(mode), 0o666)
+				os.WriteFile(filepath.Join(td, "local", "weekends"), []byte("3\n"), 0o666)
+				before, beforeTmp := ref.Snapshot(td), ref.Snapshot(tmp)
+				cmd := exec.Command(exe, "-test.run", "^TestVerifC16$")
+				cmd.Env = append(os.Environ(), "VERIF_C16_CRASHCHILD=1", "VERIF_C16_DIR="+td, "VERIF_OUT=", "TMPDIR="+tmp)
+				cmd.Stdin = strings.NewReader(text)
+				out, _ := cmd.CombinedOutput()
+				res.Evaluations++
+				res.Validated++
+				desc := fmt.Sprintf("crash-monitor child, mode %q, standard input %s", mode, in)
+				if strings.HasPrefix(mode, "off") {
+					if d := before.Diff(ref.Snapshot(td)); len(d) > 0 {
+						res.Violate("mode-off-wrote", fmt.Sprintf("%s: telemetry directory changed: %v", desc, d), map[string]any{"case": desc})
+					}
+					if d := beforeTmp.Diff(ref.Snapshot(tmp)); len(d) > 0 {
+						res.Violate("mode-off-wrote:tempdir", fmt.Sprintf("%s: files written to the temporary directory: %v (output %.200q)", desc, d, out), map[string]any{"case": desc})
+					}
+				}
+				if strings.Contains(string(out), "RETURNED") {
+					res.Violate("child-returned", fmt.Sprintf("%s: the telemetry child returned from Start instead of exiting", desc), map[string]any{"case": desc})
+				}
+				res.Class("crash-child/" + in + "/" + mode[:2])
+				os.RemoveAll(td)
+				os.RemoveAll(tmp)
+			}
+		}
 	}
 	// Token race.
 	ns := []int{2}
